@@ -8,13 +8,13 @@ def tup(n):
     return "Tuple[" + ", ".join(["int"] * max(1, n)) + "]"
 
 
-def lay(mode, n, l, k, leader, kind, timeout, lens=None, k2=None):
+def lay(mode, n, l, k, leader, kind, timeout, lens=None, k2=None, open_="", pre=""):
     lens = tuple(lens) if lens is not None else (l,) * n
     k2 = k if k2 is None else k2
-    return vf.CH(f"C04.{'d re-indent' if mode == 'indent' else 'e CRLF'} {kind} line lengths={lens} indent={k}->{k2} leader={leader}", "c04_layout.py",
-                 dict(MODE=mode, N=len(lens), L=l, K=k, K2=k2, LEADER=leader, KIND=kind, NCP=max(1, sum(lens)), LENS=lens, IT=tup(max(k, k2))), timeout=timeout, encodes=ENC,
+    return vf.CH(f"C04.{'d re-indent' if mode == 'indent' else 'e CRLF'} {kind} line lengths={lens} indent={k}->{k2} leader={leader}" + (f" opening line '#[[[{open_}'" if open_ else "") + (f" +{len(pre)} concrete indent characters" if pre else ""), "c04_layout.py",
+                 dict(MODE=mode, N=len(lens), L=l, K=k, K2=k2, LEADER=leader, KIND=kind, OPEN=open_, PRE=pre, NCP=max(1, sum(lens)), LENS=lens, IT=tup(max(k, k2))), timeout=timeout, encodes=ENC,
                  symbolic="body line texts (arbitrary code points), the characters (space/tab) of both indentations",
-                 bound=f"{n} body lines of {l} chars, indent width {k}; opening line holds only '#[[['")
+                 bound=f"{n} body lines of {l} chars, indent width {k}; opening line holds " + (f"'#[[[{open_}'" if open_ else "only '#[[['"))
 
 
 def build(tier):
@@ -29,6 +29,9 @@ def build(tier):
     # blocks with physically empty lines (not indented, no leader), e.g. before a literal block inside an indented member doccomment
     obs.append(lay("indent", 3, 2, 2, True, "cpp_member", t, lens=(2, 0, 2), k2=0))
     obs.append(lay("indent", 2, 2, 3, True, "function", t, k2=1))
+    # text on the opening line, block re-indented from 8 characters to none (and 7 -> 2): the opening line is not part of the indentation
+    obs.append(lay("indent", 2, 2, 1, True, "function", t, k2=0, open_=" Opening words", pre=" " * 7))
+    obs.append(lay("indent", 1, 2, 1, True, "cpp_member", t, k2=2, open_=" x", pre=chr(9) * 6))
     obs.append(lay("indent", 3, 2, 2, True, "cpp_member", t, lens=(2, 0, 2)))
     obs.append(lay("indent", 3, 2, 1, False, "function", t, lens=(1, 0, 1)))
     for (n, l, k, leader, kind) in ([(2, 2, 0, True, "function"), (1, 2, 2, True, "set")] if quick else
